@@ -3,7 +3,10 @@
 (* Name resolution (C13): which variable a name denotes, and which uses the   *)
 (* checker must reject.  A program is                                        *)
 (*   [defs |-> <<[t, lo, hi]>>,   DEFINT/DEFLNG/DEFSNG/DEFDBL/DEFSTR lo-hi      *)
-(*    main |-> <<stmt>>, sub |-> <<stmt>>, params |-> <<[b, c, sfx]>>]          *)
+(*    main |-> <<stmt>>, sub |-> <<stmt>>,                                      *)
+(*    params |-> << >> or <<[b, t, ext, argb]>>  one parameter of the SUB: name,   *)
+(*              type, declared AS type (ext) or with a suffix, and the base name    *)
+(*              of the caller's variable passed for it]                             *)
 (* the SUB is called where main has [k |-> "call", args |-> <<[b, c, sfx]>>].   *)
 (* Statements (b = base name in canonical upper case, c = code of its first     *)
 (* letter, sfx in "", "I", "L", "S", "D", "$"):                                 *)
@@ -84,16 +87,32 @@ SetLoc(st, sc, d) == IF sc = "main" THEN [st EXCEPT !.g = d] ELSE [st EXCEPT !.l
 
 UsedAny(d, b) == \E t \in Types : <<b, t>> \in d.seen
 
+\* A FUNCTION of the program: its base name has one meaning everywhere, with the type of its header.  The name
+\* with that suffix (or bare, when the default type of its letter is that type) is a call; any other suffix, an
+\* assignment outside the function, and every declaration of the name are rejected ("Duplicate definition").
+IsFn(st, b) == b \in DOMAIN st.fn
+FnStmt(st, sc, s) ==
+  LET f == st.fn[s.b] IN
+  IF s.k = "print" THEN
+       (IF s.sfx = f.t THEN [st EXCEPT !.out = @ \o Show(ValueFor(f.t, f.id))]
+        ELSE IF s.sfx = "" THEN (IF DefaultType(st.defs, s.c) = f.t THEN [st EXCEPT !.out = @ \o Show(ValueFor(f.t, f.id))] ELSE Unspec(st))
+        ELSE Reject(st))
+  ELSE IF s.k = "let" /\ s.sfx = "" /\ DefaultType(st.defs, s.c) # f.t THEN Unspec(st)
+  ELSE Reject(st)
+
 Stmt(st, sc, s) ==
   LET d == Loc(st, sc) IN
+  IF s.k \in {"let", "print", "dimas", "dimsfx", "const"} /\ IsFn(st, s.b) THEN FnStmt(st, sc, s) ELSE
   CASE s.k \in {"let", "print"} ->
          LET r == Resolve(st, sc, s.b, s.c, s.sfx) IN
          IF r.r = "reject" THEN Reject(st)
          ELSE IF r.r = "const" THEN
            (IF s.k = "let" THEN Reject(st) ELSE [st EXCEPT !.out = @ \o Show(r.v)])
          ELSE
-           LET key == r.key
-               st1 == IF key[1] = sc THEN SetLoc(st, sc, [d EXCEPT !.seen = @ \cup {<<key[2], key[3]>>}]) ELSE st
+           LET key0 == r.key
+               \* a parameter is the caller's variable (by reference)
+               key == IF key0 \in DOMAIN st.alias THEN st.alias[key0] ELSE key0
+               st1 == IF key0[1] = sc THEN SetLoc(st, sc, [d EXCEPT !.seen = @ \cup {<<key0[2], key0[3]>>}]) ELSE st
                cur == IF key \in DOMAIN st.vars THEN st.vars[key] ELSE DefaultVal(key[3])
            IN IF s.k = "let"
               THEN [st1 EXCEPT !.vars = IF key \in DOMAIN @ THEN [@ EXCEPT ![key] = ValueFor(key[3], s.id)]
@@ -134,13 +153,26 @@ Pass(st, sc, stmts, j) ==
   ELSE Pass(Stmt(st, sc, stmts[j]), sc, stmts, j + 1)
 
 Start(p) == [defs |-> p.defs, g |-> NewScope, l |-> NewScope, shared |-> {}, sharedext |-> {},
-             vars |-> Empty, out |-> <<>>, verdict |-> "accept"]
+             vars |-> Empty, out |-> <<>>, verdict |-> "accept", alias |-> Empty,
+             fn |-> IF "fn" \in DOMAIN p /\ Len(p.fn) > 0 THEN (p.fn[1].b :> p.fn[1]) ELSE Empty]
+
+\* The scope of the SUB at entry: its parameter (at most one is modelled).  A parameter declared AS type is an
+\* extended declaration of its name (other suffixes are rejected); one declared with a suffix is that compact
+\* variable.  Either way it IS the caller's variable of that type (arrays: the element used by the histories).
+ParamScope(p) ==
+  IF Len(p.params) = 0 THEN NewScope
+  ELSE LET q == p.params[1] IN
+       IF q.ext THEN [ext |-> (q.b :> q.t), cst |-> Empty, seen |-> {}]
+       ELSE [ext |-> Empty, cst |-> Empty, seen |-> {<<q.b, q.t>>}]
+ParamAlias(p) ==
+  IF Len(p.params) = 0 THEN Empty
+  ELSE LET q == p.params[1] IN (Key("sub", q.b, q.t) :> Key("main", q.argb, q.t))
 
 \* the static verdict: walk main, then the body of the SUB (declarations of main are visible as far
 \* as they are shared / constant)
 CheckProg(p) ==
   LET m == Pass(Start(p), "main", p.main, 1) IN
-  IF m.verdict # "accept" THEN m ELSE Pass(m, "sub", p.sub, 1)
+  IF m.verdict # "accept" THEN m ELSE Pass([m EXCEPT !.l = ParamScope(p), !.alias = ParamAlias(p)], "sub", p.sub, 1)
 
 \* running: main up to the call, the body (fresh locals), the rest of main
 RECURSIVE CallIndex(_, _)
@@ -155,8 +187,9 @@ RunProg(p) ==
            full == Pass(Start(p), "main", p.main, 1)
            \* the SUB stands after the whole main module: every DEFtype of main governs its names
            b == Pass([a EXCEPT !.g.cst = full.g.cst, !.g.ext = full.g.ext, !.shared = full.shared,
-                                !.sharedext = full.sharedext, !.l = NewScope, !.defs = full.defs], "sub", p.sub, 1)
-       IN Pass([b EXCEPT !.g = a.g, !.shared = a.shared, !.sharedext = a.sharedext, !.defs = a.defs], "main",
+                                !.sharedext = full.sharedext, !.l = ParamScope(p), !.alias = ParamAlias(p),
+                                !.defs = full.defs], "sub", p.sub, 1)
+       IN Pass([b EXCEPT !.g = a.g, !.shared = a.shared, !.sharedext = a.sharedext, !.defs = a.defs, !.alias = Empty], "main",
                SubSeq(p.main, ci + 1, Len(p.main)), 1)
 
 Oracle(p) ==
